@@ -13,7 +13,10 @@
    answer (6):  size.w size.h content.w content.h first_baselines.y (has value)
    R = events:  0 child input(17) | 1 child layout(21: order x y w h cw ch sbw sbh border(l r t b) padding margin) | 2 output(8: w h cw ch
                 baseline.x baseline.y as (has value))   then nothing.
-   The runner additionally emits  3  when the recorded answers run out,  5 n  when n answers are left over at Ret,  -2  out of fuel. *)
+   The runner additionally emits  3  when the recorded answers run out,  5 n  when n answers are left over at Ret,  -2  out of fuel (of the
+   walk: more than 100000 events),  -4  when the case does not decode (shorter than its own counts say).  lib/props/_flexalg.py counts every
+   one of them as a STRUCTURAL disagreement.  NOT marked: `resolve_flexible_lengths` running out of fuel (Model/FlexAlg.v: a `None` leaves
+   the line unchanged; never, by C07_loop_terminates); `flex_alg` has no model of a Rust panic (the flex code has none on these inputs). *)
 From Coq Require Import ZArith Bool List.
 From TV Require Import Num.F32 Model.Common Model.Leaf Gen.FlexGen Model.Flex Model.FlexBase Model.FlexAlgBase Model.FlexAlg.
 From TV Require Model.Engine.
@@ -129,4 +132,5 @@ Definition run_case (c : list Z) : list Z :=
   let c4 := skipn (n * STYLE_INTS) c3 in
   let nq := Z.to_nat (nth 0 c4 0) in
   let answers := dec_many dec_answer 6 nq (skipn 1 c4) in
-  rev (walk (N.to_nat 100000%N) (flex_alg s children inp) answers []).
+  if (length c <? STYLE_INTS + 17 + 1 + n * STYLE_INTS + 1 + 6 * nq)%nat then [-4]
+  else rev (walk (N.to_nat 100000%N) (flex_alg s children inp) answers []).
